@@ -177,3 +177,118 @@ func ruleK4(p *Prog, r *Report) {
 	}
 	r.Floor(R, "reads of lazily filled fields", 1, n)
 }
+
+// X11 a memoised derivative is dropped when its source changes.
+//
+// Where a method fills a field M of an object lazily (`if x.M == zero { x.M = f(x.F) }`) from another field F of the
+// same object, M is a cache of F. Every other place that assigns F of an existing object must reset M in the same
+// function - otherwise the object keeps answering from the old F (a map whose type was changed is still written
+// with the encoding of its old type).
+func ruleX11(p *Prog, r *Report) {
+	const R = "X11"
+	type memo struct{ owner, m, f string }
+	var memos []memo
+	for _, g := range p.TopFuncs() {
+		if p.IsTestFile(g.Pos()) || g.Signature.Recv() == nil || len(g.Params) == 0 {
+			continue
+		}
+		for _, b := range g.Blocks {
+			ifi, ok := b.Instrs[len(b.Instrs)-1].(*ssa.If)
+			if !ok {
+				continue
+			}
+			bo, ok := ifi.Cond.(*ssa.BinOp)
+			if !ok || (bo.Op != token.EQL && bo.Op != token.NEQ) {
+				continue
+			}
+			var mf fieldRef
+			found := false
+			for _, pr := range [][2]ssa.Value{{bo.X, bo.Y}, {bo.Y, bo.X}} {
+				subject := pr[0]
+				if a, isLen := isLenOf(subject); isLen {
+					subject = a // len(x.M) == 0
+				}
+				fr, ok := asLoadedField(subject)
+				if !ok || fr.Owner == nil || !sameValue(fr.Base, g.Params[0]) {
+					continue
+				}
+				c, isC := canon(pr[1]).(*ssa.Const)
+				if !isC {
+					continue
+				}
+				zero := c.Value == nil || c.Value.String() == `""` || c.Value.String() == "0"
+				if zero {
+					mf, found = fr, true
+				}
+			}
+			if !found {
+				continue
+			}
+			eq := 0
+			if bo.Op == token.NEQ {
+				eq = 1
+			}
+			for _, fb := range g.Blocks {
+				if !edgeDominates(b, eq, fb) {
+					continue
+				}
+				for _, in := range fb.Instrs {
+					st, ok := in.(*ssa.Store)
+					if !ok {
+						continue
+					}
+					w, ok := asFieldAddr(st.Addr)
+					if !ok || w.Field != mf.Field || w.Owner != mf.Owner || !sameValue(w.Base, g.Params[0]) {
+						continue
+					}
+					// sources: other fields of the receiver the stored value derives from
+					sliceContains(st.Val, func(v ssa.Value) bool {
+						if src, ok := asLoadedField(v); ok && src.Owner == mf.Owner && src.Field != mf.Field && sameValue(src.Base, g.Params[0]) {
+							memos = append(memos, memo{mf.Owner.Obj().Name(), mf.Field, src.Field})
+						}
+						return false
+					}, 0, map[ssa.Value]bool{})
+				}
+			}
+		}
+	}
+	n := 0
+	seen := map[string]bool{}
+	for _, mm := range memos {
+		key := mm.owner + "." + mm.m + "<-" + mm.f
+		if seen[key] {
+			continue
+		}
+		seen[key] = true
+		for _, f := range p.TopFuncs() {
+			if p.IsTestFile(f.Pos()) {
+				continue
+			}
+			writesF, resetsM := ssa.Instruction(nil), false
+			eachInstr(f, func(in ssa.Instruction) {
+				st, ok := in.(*ssa.Store)
+				if !ok {
+					return
+				}
+				w, ok := asFieldAddr(st.Addr)
+				if !ok || w.Owner == nil || w.Owner.Obj().Name() != mm.owner || isFreshBase(w.Base) {
+					return
+				}
+				if w.Field == mm.f {
+					writesF = in
+				}
+				if w.Field == mm.m {
+					resetsM = true
+				}
+			})
+			if writesF == nil {
+				continue
+			}
+			n++
+			r.Decide(resetsM, R, "memo-invalidated:"+key+":"+p.Name(f), p.InstrPos(writesF),
+				"the cached derivative is reset where its source is assigned",
+				"field "+mm.f+" of "+mm.owner+" is assigned here but the field "+mm.m+", which another method fills lazily from it, is not reset: the object keeps answering from the old "+mm.f+" (an encoding of the previous type is written for a map whose type was changed)")
+		}
+	}
+	r.Ok(R, "memo-pairs", "-", fmt.Sprintf("%d lazily filled field(s) derived from another field of the same object; %d assignments of their sources", len(seen), n))
+}
